@@ -3,6 +3,7 @@
 -/
 import TephraModel.Wire
 import TephraModel.Scan
+import TephraModel.LexOps
 import TephraModel.Spec.Raw
 import TephraModel.Spec.Canon
 
@@ -77,20 +78,16 @@ def runIter (fields : List String) : String × String :=
 
 /-! ### lexops -/
 
-inductive Op where
-  | next | peek
-  | nextIf (k : Nat) | nextIfEq (k : Nat) | advanceTo (k : Nat) | advanceUpTo (k : Nat)
-  | setFilter (f : Option Nat) | withFilter (f : Option Nat)
-  | startSublex | intoSublexer | spans | forkBegin | forkEnd
-  | withLineEnding (le : LineEnding) | withTabWidth (t : Nat) | withMetrics (le : LineEnding) (t : Nat)
-deriving Repr, DecidableEq, Inhabited
+abbrev Op := LexOps.Op Tok
+
+def kindIs (k : Nat) : Tok → Bool := fun t => t.kind == k
 
 def parseOp (s : String) : Option Op :=
   let h := s.take 1 |>.toString
   let r := s.drop 1 |>.toString
   if h == "n" then some .next else if h == "p" then some .peek
-  else if h == "i" then some (.nextIf (nat! r)) else if h == "e" then some (.nextIfEq (nat! r))
-  else if h == "t" then some (.advanceTo (nat! r)) else if h == "u" then some (.advanceUpTo (nat! r))
+  else if h == "i" then some (.nextIf (kindIs (nat! r))) else if h == "e" then some (.nextIf (kindIs (nat! r)))
+  else if h == "t" then some (.advanceTo (kindIs (nat! r))) else if h == "u" then some (.advanceUpTo (kindIs (nat! r)))
   else if h == "f" then some (.setFilter (parseFilter r)) else if h == "W" then some (.withFilter (parseFilter r))
   else if h == "s" then some .startSublex else if h == "S" then some .intoSublexer
   else if h == "q" then some .spans else if h == "[" then some .forkBegin else if h == "]" then some .forkEnd
@@ -122,61 +119,22 @@ def stateObs (lx : Lx) : String :=
   "/".intercalate [showSpan lx.tokenSpan, showSpan lx.parseSpan, showPos lx.cursorPos,
     showOptSpan lx.peekTokenSpan, fingerprint lx]
 
-/-- Apply one non-fork op. -/
-def applyOp (E : LexEnv Nat Tok) (lx : Lx) : Op → String × Lx
-  | .next => let r := lx.next E; (showOptTok r.1, r.2)
-  | .peek => let r := lx.peek E; (showOptTok r.1, r.2)
-  | .nextIf k => let r := lx.nextIf E (fun t => t.kind == k); (showOptTok r.1, r.2)
-  | .nextIfEq k => let r := lx.nextIf E (fun t => t.kind == k); (showOptTok r.1, r.2)
-  | .advanceTo k => let r := lx.advanceTo E (fun t => t.kind == k); (showBool r.1, r.2)
-  | .advanceUpTo k => let r := lx.advanceUpTo E (fun t => t.kind == k); (showBool r.1, r.2)
-  | .setFilter f => let r := lx.setFilter E f; (showBool r.1.isSome, r.2)
-  | .withFilter f => ("-", lx.withFilter E f)
-  | .startSublex => ("-", lx.startSublex E)
-  | .intoSublexer => ("-", lx.intoSublexer E)
-  | .spans => ("-", lx)
-  | .withLineEnding le => ("-", lx.withLineEnding le)
-  | .withTabWidth t => ("-", lx.withTabWidth t)
-  | .withMetrics le t => ("-", lx.withColumnMetrics ⟨le, t⟩)
-  | .forkBegin => ("-", lx)
-  | .forkEnd => ("-", lx)
+def showOut : LexOps.Out Tok → String
+  | .tok t => showOptTok t
+  | .flag b => showBool b
+  | .unit => "-"
 
-/-- Run a history on a stack of lexers (top = current clone). -/
-def runHistory (E : LexEnv Nat Tok) : List Lx → List Op → List String
-  | _, [] => []
-  | [], _ => []
-  | top :: rest, op :: ops =>
-    match op with
-    | .forkBegin => ("-@" ++ stateObs top) :: runHistory E (top :: top :: rest) ops
-    | .forkEnd =>
-      let stack := match rest with
-        | [] => [top]
-        | _ => rest
-      ("-@" ++ stateObs (stack.headD top)) :: runHistory E stack ops
-    | _ =>
-      let (o, lx') := applyOp E top op
-      (o ++ "@" ++ stateObs lx') :: runHistory E (lx' :: rest) ops
+def project (ops : List Op) : List Op := LexOps.project ops
 
-def project (ops : List Op) : List Op :=
-  let rec go (depth : Nat) : List Op → List Op
-    | [] => []
-    | op :: ops =>
-      match op with
-      | .forkBegin => go (depth + 1) ops
-      | .forkEnd => go (depth - 1) ops
-      | .peek | .startSublex | .intoSublexer | .spans => go depth ops
-      | _ => if depth > 0 then go depth ops else op :: go depth ops
-  go 0 ops
-
+/-- `next_if_eq(t)` is `next_if(|x| x == t)` in the model (token equality is by kind). -/
 def histModel (cfg : ScanCfg) (t : Text) (m : Metrics) (ops : List Op) : String :=
   let E := lexEnv cfg t
-  " ".intercalate (runHistory E [Lexer.new 0 m (bytes t)] ops)
+  " ".intercalate ((LexOps.exec E [Lexer.new 0 m (bytes t)] ops).map fun (o, lx) =>
+    showOut o ++ "@" ++ stateObs lx)
 
 /-! Oracle: evaluated on the implementation's observation strings. -/
 
-def isAdvance : Op → Bool
-  | .next | .nextIf _ | .nextIfEq _ | .advanceTo _ | .advanceUpTo _ => true
-  | _ => false
+def isAdvance (op : Op) : Bool := LexOps.isAdvance op
 
 /-- (output, token span) of every advancing op outside forks, given per-op observation strings. -/
 def deliveredOf (ops : List Op) (obs : List String) : List String :=
